@@ -357,18 +357,21 @@ class Lanes:
 
 def explore(make, assign=None, depth=0):
     """all results over the free lanes the computation actually depends on: [(assignment, result)]"""
+    # a generator: the caller stops at the first result that misses the specification, so a broken search whose scan runs on
+    # over many free lanes is reported at its first wrong answer instead of exhausting the fork budget
     assign = assign or {}
     try:
-        return [(dict(assign), make(assign).run())]
+        r = make(assign).run()
     except NeedLane as nl:
-        if depth > 16 or nl.lane in assign:
+        if depth > 64 or nl.lane in assign:
             raise Unsupported('dependence on stale lanes could not be resolved')
-        out = []
         for v in (T, F):
             a = dict(assign)
             a[nl.lane] = v
-            out.extend(explore(make, a, depth + 1))
-        return out
+            for x in explore(make, a, depth + 1):
+                yield x
+        return
+    yield (dict(assign), r)
 
 
 def _simd(res, cfg, f, n):
